@@ -1,61 +1,102 @@
 (** C11 — handover: an executable labelled transition system of a chain of kvarn instances that
     are started one after the other on the same ports and the same control-socket path
-    (src/lib.rs [RunConfig::execute], src/ctl.rs [listen] and the [shutdown] plugin,
-    signal/src/lib.rs [send_to] / [start_at], src/shutdown.rs [Manager::shutdown]).
+    (src/lib.rs [RunConfig::execute], [accept], the request loop of [handle_connection]; src/ctl.rs [listen]
+    and the [shutdown] plugin; signal/src/lib.rs [send_to] / [start_at]; src/shutdown.rs
+    [Manager::shutdown], [Manager::wait]).
     Definitions only; proofs are in Proofs/HandoverProofs.v.
 
     Every instance carries one copy of C10's machine (Model/Shutdown.v, variant [repaired] = the
     code after C10's three fixes) for its shutdown manager, accept loops and connection tasks:
-    [np] listeners (one per port), ONE shutdown caller (the control socket's [shutdown] plugin; it may
-    run only after the message "shutdown no-wait" has been received), no pre-shutdown hook
-    ("no-wait"), one task in [wait()] (the process exits when it resolves).
+    [np] listeners (sockets; with both address families two per port), ONE shutdown caller (the control
+    socket's [shutdown] plugin; it may run only after the message "shutdown no-wait" has been received), no
+    pre-shutdown hook ("no-wait"), one task in [wait()] from the start (the process exits when it
+    resolves) and any number of further calls of [wait()] made at any time ([HWaitNew]).
 
     The start-up program of an instance ([execute]):
-      for each port j:  take the accept loop's count; (bind + listen); spawn accept task j
-      ctl::listen:      connect to the socket at the path and write "shutdown no-wait"
-                        (NotFound: go on) ; wait for the reply ; remove the file at the path ;
-                        spawn the control-socket task (which binds the path) ; return.
-    [fixD = false] (kvarn 0.6.3 as found): the listener of port j is created, bound and put into
+      for each socket j:  take the accept loop's count; create the socket and bind it   [PSpawn j  -> PListen j]
+                          put it into listening state; spawn accept task j              [PListen j -> PSpawn (S j)]
+      ctl::listen:        connect to the socket at the path and write "shutdown no-wait"
+                          (NotFound: go on) ; wait for the reply ;                      [PSpawn np -> PWait k -> PRm]
+                          start_at: remove the file at the path ;                       [PRm -> PBindCtl]
+                                    bind the path ; spawn the control-socket task ; return  [PBindCtl -> PRunning]
+    [fixD = false] (kvarn 0.6.3 as found): the listener of socket j is created, bound and put into
     listening state by the SPAWNED accept task (label [HBind]), concurrently with the rest of the
     start-up program.  [fixD = true] (after the fix): by [execute] itself, before the task is
     spawned, hence before the predecessor is contacted.
+    [fixE = false] (as found): [start_at] removes the file and returns; the path is bound by the spawned
+    control-socket task ([HCtl], [TSpawned -> TBound]) — [execute] has returned while nobody listens at
+    the path.  [fixE = true] (after the fix): [start_at] binds the path before it returns.
 
     The predecessor: control-socket task accepts the message and enters the plugin ([HRecv]); the
     plugin calls [Manager::shutdown] (C10's caller program; its second access also removes whatever
     file is at the path); then the reply is written ([HReply]).  The control-socket listener is closed
     once the initiate-shutdown channel has fired.
 
+    A connection task runs the request loop of [handle_connection]: read a request ([HReq], the client's
+    doing), answer it, then ask [continue_accepting()] — the manager's shutdown flag, read anew every time
+    ([HResp]): flag set -> leave the loop, else wait for the next request.  The loop also ends when the
+    client closes, when no request head arrives within 5 s, or on an I/O error ([HKaEnd]).  Only then
+    does the task end (C10's step from [CRunning], which releases the connection's count).
+
+    The operator ([HStart]) starts a new instance only when the newest one's [execute] has returned.
+
     What is NOT in the model (see LEVEL_TEXT): which of two SO_REUSEPORT listeners the kernel gives a
     connection to, and what it does with connections queued on a listener that is closed. *)
 From KV Require Export Bytes Shutdown.
 Open Scope nat_scope.
 
-Record hvariant : Type := { fixD : bool }.
-Definition htoday : hvariant := {| fixD := false |}.
-Definition hrepaired : hvariant := {| fixD := true |}.
+Record hvariant : Type := { fixD : bool; fixE : bool }.
+Definition htoday : hvariant := {| fixD := false; fixE := false |}.
+(** after the first repair only: listeners bound by [execute]; the control socket still bound by its task *)
+Definition hbound : hvariant := {| fixD := true; fixE := false |}.
+Definition hrepaired : hvariant := {| fixD := true; fixE := true |}.
 
 (** program counter of [execute] *)
 Inductive ipc : Type :=
-| PSpawn (j : nat)   (* about to handle port j; with j >= np: about to send "shutdown no-wait" *)
+| PSpawn (j : nat)   (* about to create and bind socket j; with j >= np: about to send "shutdown no-wait" *)
+| PListen (j : nat)  (* (fixD) socket j is bound; about to call listen() and to spawn its accept task *)
 | PWait (k : nat)    (* message delivered to instance k; waiting for its reply *)
-| PRm                (* reply (or NotFound) seen; about to remove the socket file and start the control-socket task *)
+| PRm                (* reply (or NotFound) seen; start_at: about to remove the socket file *)
+| PBindCtl           (* (fixE) file removed; about to bind the path *)
 | PRunning.          (* [execute] has returned *)
+
+(** a listening socket of [execute] *)
+Inductive bst : Type := BNone | BBound | BListening.
+Definition is_listening (b : bst) : bool := match b with BListening => true | _ => false end.
 
 (** the control-socket task of an instance ([kvarn_signal::unix::start_at]) *)
 Inductive tpc : Type := TNone | TSpawned | TBound | TClosed.
 
+(** the request loop of a connection task *)
+Inductive kst : Type := KIdle | KServing | KExit.
+Record kconn : Type := {
+  k_st : kst;
+  k_after : nat   (* requests read on this connection while the shutdown flag was already set *)
+}.
+Definition kc0 : kconn := {| k_st := KIdle; k_after := 0 |}.
+Definition kget (c : nat) (l : list kconn) : kconn := nth c l kc0.
+Fixpoint kset (c : nat) (v : kconn) (l : list kconn) : list kconn :=
+  match c, l with
+  | O, [] => [v]
+  | O, _ :: r => v :: r
+  | S c', [] => kc0 :: kset c' v []
+  | S c', a :: r => a :: kset c' v r
+  end.
+
 Record inst : Type := {
   i_pc : ipc;
-  i_bnd : list bool;   (* port j: the socket has been created, bound and put into listening state *)
+  i_bnd : list bst;    (* socket j *)
   i_ctl : tpc;
   i_msg : bool;        (* a "shutdown no-wait" message is waiting on this instance's control socket *)
   i_recv : bool;       (* the shutdown plugin has been entered *)
   i_replied : bool;    (* the plugin has returned and the reply has been written *)
-  i_sd : state         (* C10's machine *)
+  i_sd : state;        (* C10's machine *)
+  i_ka : list kconn;   (* connection task c: its request loop (absent: waiting for the first request) *)
+  i_lw : list bool     (* calls of wait() made after the start: resolved? *)
 }.
 
 Record hstate : Type := {
-  np : nat;               (* number of ports *)
+  np : nat;               (* number of listening sockets of an instance *)
   insts : list inst;      (* oldest first; an instance's number is its position *)
   path : option nat       (* whose socket file is at the control-socket path *)
 }.
@@ -64,40 +105,55 @@ Inductive hlabel : Type :=
 | HStart                      (* environment: the operator starts a new instance *)
 | HMain (i : nat)             (* instance i: next step of [execute] *)
 | HBind (i j : nat)           (* (fixD = false) accept task j of instance i binds its listener *)
-| HCtl (i : nat)              (* instance i's control-socket task: bind the path / close *)
+| HCtl (i : nat)              (* instance i's control-socket task: (fixE = false) bind the path / close *)
 | HRecv (i : nat)             (* instance i: message accepted and read, plugin entered *)
 | HReply (i : nat)            (* instance i: plugin returned, reply written *)
-| HSd (i : nat) (lb : label). (* a step of instance i's shutdown machine *)
+| HSd (i : nat) (lb : label)  (* a step of instance i's shutdown machine *)
+| HReq (i c : nat)            (* environment: a request arrives on connection c of instance i and is read *)
+| HResp (i c : nat)           (* connection c of instance i: the answer is written; continue_accepting() reads the flag *)
+| HKaEnd (i c : nat)          (* connection c of instance i: the client closed / 5 s without a request head / I/O error *)
+| HWaitNew (i : nat)          (* environment: somebody calls wait() on instance i's manager *)
+| HWaitPoll (i w : nat).      (* that future is polled *)
 
 Definition h_is_env (lb : hlabel) : bool :=
-  match lb with HStart => true | HSd _ lb => is_env lb | _ => false end.
+  match lb with HStart | HReq _ _ | HWaitNew _ => true | HSd _ lb => is_env lb | _ => false end.
 
 Definition with_pc (x : inst) (p : ipc) : inst :=
-  {| i_pc := p; i_bnd := i_bnd x; i_ctl := i_ctl x; i_msg := i_msg x; i_recv := i_recv x; i_replied := i_replied x; i_sd := i_sd x |}.
-Definition with_bnd (x : inst) (b : list bool) : inst :=
-  {| i_pc := i_pc x; i_bnd := b; i_ctl := i_ctl x; i_msg := i_msg x; i_recv := i_recv x; i_replied := i_replied x; i_sd := i_sd x |}.
+  {| i_pc := p; i_bnd := i_bnd x; i_ctl := i_ctl x; i_msg := i_msg x; i_recv := i_recv x; i_replied := i_replied x; i_sd := i_sd x;
+     i_ka := i_ka x; i_lw := i_lw x |}.
+Definition with_bnd (x : inst) (b : list bst) : inst :=
+  {| i_pc := i_pc x; i_bnd := b; i_ctl := i_ctl x; i_msg := i_msg x; i_recv := i_recv x; i_replied := i_replied x; i_sd := i_sd x;
+     i_ka := i_ka x; i_lw := i_lw x |}.
 Definition with_ctl (x : inst) (t : tpc) : inst :=
-  {| i_pc := i_pc x; i_bnd := i_bnd x; i_ctl := t; i_msg := i_msg x; i_recv := i_recv x; i_replied := i_replied x; i_sd := i_sd x |}.
+  {| i_pc := i_pc x; i_bnd := i_bnd x; i_ctl := t; i_msg := i_msg x; i_recv := i_recv x; i_replied := i_replied x; i_sd := i_sd x;
+     i_ka := i_ka x; i_lw := i_lw x |}.
 Definition with_msg (x : inst) (m r p : bool) : inst :=
-  {| i_pc := i_pc x; i_bnd := i_bnd x; i_ctl := i_ctl x; i_msg := m; i_recv := r; i_replied := p; i_sd := i_sd x |}.
+  {| i_pc := i_pc x; i_bnd := i_bnd x; i_ctl := i_ctl x; i_msg := m; i_recv := r; i_replied := p; i_sd := i_sd x;
+     i_ka := i_ka x; i_lw := i_lw x |}.
 Definition with_sd (x : inst) (s : state) : inst :=
-  {| i_pc := i_pc x; i_bnd := i_bnd x; i_ctl := i_ctl x; i_msg := i_msg x; i_recv := i_recv x; i_replied := i_replied x; i_sd := s |}.
+  {| i_pc := i_pc x; i_bnd := i_bnd x; i_ctl := i_ctl x; i_msg := i_msg x; i_recv := i_recv x; i_replied := i_replied x; i_sd := s;
+     i_ka := i_ka x; i_lw := i_lw x |}.
+Definition with_ka (x : inst) (k : list kconn) : inst :=
+  {| i_pc := i_pc x; i_bnd := i_bnd x; i_ctl := i_ctl x; i_msg := i_msg x; i_recv := i_recv x; i_replied := i_replied x; i_sd := i_sd x;
+     i_ka := k; i_lw := i_lw x |}.
+Definition with_lw (x : inst) (w : list bool) : inst :=
+  {| i_pc := i_pc x; i_bnd := i_bnd x; i_ctl := i_ctl x; i_msg := i_msg x; i_recv := i_recv x; i_replied := i_replied x; i_sd := i_sd x;
+     i_ka := i_ka x; i_lw := w |}.
 
 Definition with_insts (s : hstate) (l : list inst) : hstate := {| np := np s; insts := l; path := path s |}.
 Definition with_path (s : hstate) (p : option nat) : hstate := {| np := np s; insts := insts s; path := p |}.
 Definition set_inst (s : hstate) (i : nat) (x : inst) : hstate := with_insts s (upd i x (insts s)).
 
-(** a fresh instance, and the first instance of a chain (already up: every port bound, control socket bound) *)
+(** a fresh instance, and the first instance of a chain (already up: every socket listening, control socket bound) *)
 Definition new_inst (n : nat) : inst :=
-  {| i_pc := PSpawn 0; i_bnd := repeat false n; i_ctl := TNone; i_msg := false; i_recv := false; i_replied := false;
-     i_sd := init repaired n 1 0 1 |}.
+  {| i_pc := PSpawn 0; i_bnd := repeat BNone n; i_ctl := TNone; i_msg := false; i_recv := false; i_replied := false;
+     i_sd := init repaired n 1 0 1; i_ka := []; i_lw := [] |}.
 Definition up_inst (n : nat) : inst :=
-  {| i_pc := PRunning; i_bnd := repeat true n; i_ctl := TBound; i_msg := false; i_recv := false; i_replied := false;
-     i_sd := init repaired n 1 0 1 |}.
+  {| i_pc := PRunning; i_bnd := repeat BListening n; i_ctl := TBound; i_msg := false; i_recv := false; i_replied := false;
+     i_sd := init repaired n 1 0 1; i_ka := []; i_lw := [] |}.
 Definition hinit (n : nat) : hstate := {| np := n; insts := [up_inst n]; path := Some 0 |}.
 
-Definition is_up (x : inst) : bool :=
-  match i_pc x, i_ctl x with PRunning, TBound => true | _, _ => false end.
+Definition is_running (x : inst) : bool := match i_pc x with PRunning => true | _ => false end.
 
 (** who answers a connect to the path *)
 Definition serves (s : hstate) (i : nat) : bool :=
@@ -113,7 +169,7 @@ Definition step_main (v : hvariant) (s : hstate) (i : nat) (x : inst) : option h
   match i_pc x with
   | PSpawn j =>
       if Nat.ltb j (np s)
-      then Some (set_inst s i (with_pc (if fixD v then with_bnd x (upd j true (i_bnd x)) else x) (PSpawn (S j))))
+      then Some (set_inst s i (if fixD v then with_pc (with_bnd x (upd j BBound (i_bnd x))) (PListen j) else with_pc x (PSpawn (S j))))
       else
         match path s with
         | Some k =>
@@ -129,22 +185,31 @@ Definition step_main (v : hvariant) (s : hstate) (i : nat) (x : inst) : option h
             end
         | None => Some (set_inst s i (with_pc x PRm))
         end
+  | PListen j => Some (set_inst s i (with_pc (with_bnd x (upd j BListening (i_bnd x))) (PSpawn (S j))))
   | PWait k =>
       match nth_error (insts s) k with
       | Some y => if i_replied y then Some (set_inst s i (with_pc x PRm)) else None
       | None => None
       end
-  | PRm => Some (with_path (set_inst s i (with_pc (with_ctl x TSpawned) PRunning)) None)
+  | PRm =>
+      if fixE v then Some (with_path (set_inst s i (with_pc x PBindCtl)) None)
+      else Some (with_path (set_inst s i (with_pc (with_ctl x TSpawned) PRunning)) None)
+  | PBindCtl =>
+      match path s with
+      | None => Some (with_path (set_inst s i (with_pc (with_ctl x TBound) PRunning)) (Some i))
+      | Some _ => Some (set_inst s i (with_pc (with_ctl x TClosed) PRunning))     (* AddrInUse *)
+      end
   | PRunning => None
   end.
 
+(** accept task j has been spawned *)
 Definition spawned (n : nat) (p : ipc) (j : nat) : bool :=
-  match p with PSpawn j' => Nat.ltb j j' | _ => Nat.ltb j n end.
+  match p with PSpawn j' | PListen j' => Nat.ltb j j' | _ => Nat.ltb j n end.
 
 Definition step_bind (v : hvariant) (s : hstate) (i j : nat) (x : inst) : option hstate :=
   if fixD v then None
-  else if spawned (np s) (i_pc x) j && negb (nth j (i_bnd x) true)
-  then Some (set_inst s i (with_bnd x (upd j true (i_bnd x))))
+  else if spawned (np s) (i_pc x) j && negb (is_listening (nth j (i_bnd x) BListening))
+  then Some (set_inst s i (with_bnd x (upd j BListening (i_bnd x))))
   else None.
 
 Definition step_ctl (s : hstate) (i : nat) (x : inst) : option hstate :=
@@ -172,11 +237,16 @@ Definition step_reply (s : hstate) (i : nat) (x : inst) : option hstate :=
        end
   else None.
 
+Definition conn_running (x : inst) (c : nat) : bool :=
+  match nth_error (cs (i_sd x)) c with Some CRunning => true | _ => false end.
+Definition k_exited (k : kconn) : bool := match k_st k with KExit => true | _ => false end.
+
 (** may instance [x] take the step [lb] of its shutdown machine? *)
 Definition sd_gate (x : inst) (lb : label) : bool :=
   match lb with
-  | LStep j | LTake j | EConn j => nth j (i_bnd x) false
+  | LStep j | LTake j | EConn j => is_listening (nth j (i_bnd x) BNone)
   | SStep _ => i_recv x
+  | CStep c => if conn_running x c then k_exited (kget c (i_ka x)) else true   (* the handler returns when its request loop has ended *)
   | _ => true
   end.
 
@@ -197,11 +267,47 @@ Definition step_sd (s : hstate) (i : nat) (x : inst) (lb : label) : option hstat
        end
   else None.
 
+Definition k_read (x : inst) (c : nat) : kconn :=
+  {| k_st := KServing; k_after := if gS (i_sd x) then S (k_after (kget c (i_ka x))) else k_after (kget c (i_ka x)) |}.
+Definition k_answered (x : inst) (c : nat) : kconn :=
+  {| k_st := if gS (i_sd x) then KExit else KIdle; k_after := k_after (kget c (i_ka x)) |}.
+Definition k_ended (x : inst) (c : nat) : kconn := {| k_st := KExit; k_after := k_after (kget c (i_ka x)) |}.
+
+Definition step_req (s : hstate) (i c : nat) (x : inst) : option hstate :=
+  if conn_running x c
+  then match k_st (kget c (i_ka x)) with
+       | KIdle => Some (set_inst s i (with_ka x (kset c (k_read x c) (i_ka x))))
+       | _ => None
+       end
+  else None.
+
+Definition step_resp (s : hstate) (i c : nat) (x : inst) : option hstate :=
+  if conn_running x c
+  then match k_st (kget c (i_ka x)) with
+       | KServing => Some (set_inst s i (with_ka x (kset c (k_answered x c) (i_ka x))))
+       | _ => None
+       end
+  else None.
+
+Definition step_kaend (s : hstate) (i c : nat) (x : inst) : option hstate :=
+  if conn_running x c
+  then match k_st (kget c (i_ka x)) with
+       | KExit => None
+       | _ => Some (set_inst s i (with_ka x (kset c (k_ended x c) (i_ka x))))
+       end
+  else None.
+
+Definition step_wpoll (s : hstate) (i w : nat) (x : inst) : option hstate :=
+  match nth_error (i_lw x) w with
+  | Some false => if finished (i_sd x) then Some (set_inst s i (with_lw x (upd w true (i_lw x)))) else None
+  | _ => None
+  end.
+
 Definition hstep (v : hvariant) (s : hstate) (lb : hlabel) : option hstate :=
   match lb with
   | HStart =>
       match nth_error (insts s) (pred (length (insts s))) with
-      | Some x => if is_up x then Some (with_insts s (insts s ++ [new_inst (np s)])) else None
+      | Some x => if is_running x then Some (with_insts s (insts s ++ [new_inst (np s)])) else None
       | None => None
       end
   | HMain i => match nth_error (insts s) i with Some x => step_main v s i x | None => None end
@@ -210,6 +316,11 @@ Definition hstep (v : hvariant) (s : hstate) (lb : hlabel) : option hstate :=
   | HRecv i => match nth_error (insts s) i with Some x => step_recv s i x | None => None end
   | HReply i => match nth_error (insts s) i with Some x => step_reply s i x | None => None end
   | HSd i lb => match nth_error (insts s) i with Some x => step_sd s i x lb | None => None end
+  | HReq i c => match nth_error (insts s) i with Some x => step_req s i c x | None => None end
+  | HResp i c => match nth_error (insts s) i with Some x => step_resp s i c x | None => None end
+  | HKaEnd i c => match nth_error (insts s) i with Some x => step_kaend s i c x | None => None end
+  | HWaitNew i => match nth_error (insts s) i with Some x => Some (set_inst s i (with_lw x (i_lw x ++ [false]))) | None => None end
+  | HWaitPoll i w => match nth_error (insts s) i with Some x => step_wpoll s i w x | None => None end
   end.
 
 Fixpoint hrun (v : hvariant) (s : hstate) (sched : list hlabel) : option hstate :=
@@ -223,26 +334,29 @@ Inductive hreachable (v : hvariant) (n : nat) : hstate -> Prop :=
 | hreach_step s lb s' : hreachable v n s -> hstep v s lb = Some s' -> hreachable v n s'.
 
 (** ---- the property's vocabulary ---------------------------------------------------------- *)
-(** instance [x] has port [j] bound and listening *)
+(** instance [x] has socket [j] bound and listening *)
 Definition listening (x : inst) (j : nat) : bool :=
-  nth j (i_bnd x) false && match nth_error (ls (i_sd x)) j with Some l => l_bound l | None => false end.
+  is_listening (nth j (i_bnd x) BNone) && match nth_error (ls (i_sd x)) j with Some l => l_bound l | None => false end.
 Definition port_served (s : hstate) (j : nat) : bool := existsb (fun x => listening x j) (insts s).
 Definition all_served (s : hstate) : bool := forallb (port_served s) (seq 0 (np s)).
 
-(** every port of [x] has been bound by its start-up *)
-Definition all_bnd (n : nat) (x : inst) : Prop := forall j, j < n -> nth j (i_bnd x) false = true.
-Definition all_bndb (n : nat) (x : inst) : bool := forallb (fun j => nth j (i_bnd x) false) (seq 0 n).
+(** every socket of [x] has been bound and put into listening state by its start-up *)
+Definition all_bnd (n : nat) (x : inst) : Prop := forall j, j < n -> nth j (i_bnd x) BNone = BListening.
+Definition all_bndb (n : nat) (x : inst) : bool := forallb (fun j => is_listening (nth j (i_bnd x) BNone)) (seq 0 n).
 
 (** listener [j] of [x] has been closed *)
 Definition closed (x : inst) (j : nat) : Prop :=
   exists l, nth_error (ls (i_sd x)) j = Some l /\ l_bound l = false.
 
-(** no thread of any instance can move (the environment — new instances, arriving connections — still may) *)
+(** no thread of any instance can move (the environment — new instances, arriving connections and requests, new
+    calls of wait() — still may) *)
 Definition hquiescent (v : hvariant) (s : hstate) : Prop := forall lb, h_is_env lb = false -> hstep v s lb = None.
 
 (** ---- executable scheduler (used for the model's prediction and the non-vacuity examples) ---- *)
 Definition inst_labels (i : nat) (x : inst) : list hlabel :=
-  [HMain i; HCtl i; HRecv i; HReply i] ++ map (HBind i) (seq 0 (length (i_bnd x))) ++ map (HSd i) (thread_labels (i_sd x)).
+  [HMain i; HCtl i; HRecv i; HReply i] ++ map (HBind i) (seq 0 (length (i_bnd x))) ++ map (HSd i) (thread_labels (i_sd x))
+  ++ map (HResp i) (seq 0 (length (cs (i_sd x)))) ++ map (HKaEnd i) (seq 0 (length (cs (i_sd x))))
+  ++ map (HWaitPoll i) (seq 0 (length (i_lw x))).
 Fixpoint all_labels (i : nat) (l : list inst) : list hlabel :=
   match l with [] => [] | x :: r => inst_labels i x ++ all_labels (S i) r end.
 Definition henabledb (v : hvariant) (s : hstate) (lb : hlabel) : bool :=
@@ -260,8 +374,9 @@ Fixpoint hdrain (v : hvariant) (fuel : nat) (s : hstate) (ok : bool) : hstate * 
 
 (** ---- xval interface ----------------------------------------------------------------------- *)
 Definition x_ipc (p : ipc) : N :=
-  match p with PSpawn j => N.of_nat j | PWait _ => 100 | PRm => 101 | PRunning => 102 end%N.
+  match p with PSpawn j => N.of_nat j | PListen j => 200 + N.of_nat j | PWait _ => 100 | PRm => 101 | PRunning => 102 | PBindCtl => 103 end%N.
 Definition x_tpc (t : tpc) : N := match t with TNone => 0 | TSpawned => 1 | TBound => 2 | TClosed => 3 end%N.
+Definition x_kst (k : kst) : N := match k with KIdle => 0 | KServing => 1 | KExit => 2 end%N.
 
 Definition d_hlabel (x : xval) : option hlabel :=
   match x with
@@ -272,6 +387,11 @@ Definition d_hlabel (x : xval) : option hlabel :=
   | XL [XN 4; XN i] => Some (HRecv (N.to_nat i))
   | XL [XN 5; XN i] => Some (HReply (N.to_nat i))
   | XL [XN 6; XN i; l] => option_map (HSd (N.to_nat i)) (d_label l)
+  | XL [XN 7; XN i; XN c] => Some (HReq (N.to_nat i) (N.to_nat c))
+  | XL [XN 8; XN i; XN c] => Some (HResp (N.to_nat i) (N.to_nat c))
+  | XL [XN 10; XN i; XN c] => Some (HKaEnd (N.to_nat i) (N.to_nat c))
+  | XL [XN 11; XN i] => Some (HWaitNew (N.to_nat i))
+  | XL [XN 12; XN i; XN w] => Some (HWaitPoll (N.to_nat i) (N.to_nat w))
   | _ => None
   end%N.
 
@@ -299,6 +419,14 @@ Definition obs_after (s : hstate) (lb : hlabel) : N :=
           end
       | None => 999
       end
+  | HReq i c | HResp i c | HKaEnd i c =>
+      match nth_error (insts s) i with Some x => x_kst (k_st (kget c (i_ka x))) | None => 999 end
+  | HWaitNew i => match nth_error (insts s) i with Some x => N.of_nat (length (i_lw x)) | None => 999 end
+  | HWaitPoll i w =>
+      match nth_error (insts s) i with
+      | Some x => match nth_error (i_lw x) w with Some true => 1 | _ => 0 end
+      | None => 999
+      end
   end%N.
 
 (** Trace acceptance.  A log entry is a label together with the observation the harness made at the
@@ -324,15 +452,16 @@ Definition d_entry (x : xval) : option (hlabel * N) :=
   | _ => None
   end.
 
-(** input (L (N fixD) (N ports) (L entry ...)) *)
+(** input (L (N variant: 0 as found, 1 first repair only, 2 both repairs) (N sockets) (L entry ...)) *)
+Definition d_hvariant (d : N) : hvariant :=
+  if N.eqb d 0 then htoday else if N.eqb d 1 then hbound else hrepaired.
 Definition run_check (x : xval) : xval :=
   match x with
   | XL [XN d; XN n; xs] =>
       match d_list d_entry xs with
       | Some log =>
-          if (n <=? 8)%N && (d <=? 1)%N then
-            let v := {| fixD := N.eqb d 1 |} in
-            let '(k, u, bad) := hcheck v (hinit (N.to_nat n)) log 0 0 in
+          if (n <=? 8)%N && (d <=? 2)%N then
+            let '(k, u, bad) := hcheck (d_hvariant d) (hinit (N.to_nat n)) log 0 0 in
             XL [x_nat k; x_nat u; XL bad]
           else bad_input
       | None => bad_input
@@ -340,11 +469,11 @@ Definition run_check (x : xval) : xval :=
   | _ => bad_input
   end.
 
-(** The model's prediction for a scenario of [k] handovers on [n] ports with [c] connections per
-    instance accepted before its successor starts: every instance is started when its predecessor is up,
-    everything is run to rest by [hdrain].
-    Output (L (N every-port-served-throughout) (L wait-resolved-per-predecessor ...) (N who-serves-the-path + 1)
-              (N quiescent) (L connections-over-per-instance ...)). *)
+(** The model's prediction for a scenario of [k] handovers on [n] sockets with [c] connections per
+    instance accepted before its successor starts: every instance is started when its predecessor's [execute]
+    has returned, everything is run to rest by [hdrain]; then [wait()] is called once more on every predecessor.
+    Output (L (N every-socket-served-throughout) (L wait-resolved-per-predecessor ...) (N who-serves-the-path + 1)
+              (N quiescent) (L connections-over-per-instance ...) (L late-wait-resolved-per-predecessor ...)). *)
 Fixpoint conns (i : nat) (n c : nat) : list hlabel :=
   match c with
   | O => []
@@ -363,24 +492,34 @@ Fixpoint scenario (v : hvariant) (fuel : nat) (k n c : nat) (i : nat) (s : hstat
 Definition who_serves (s : hstate) : nat :=
   match find (fun i => serves s i) (seq 0 (length (insts s))) with Some i => S i | None => 0 end.
 Definition waiter_done (x : inst) : bool := forallb (fun w => w) (waiters (i_sd x)) && finished (i_sd x).
+Definition late_wait (v : hvariant) (fuel : nat) (s : hstate) : hstate :=
+  match hrun v s (map HWaitNew (seq 0 (pred (length (insts s))))) with
+  | Some s' => fst (hdrain v fuel s' true)
+  | None => s
+  end.
+Definition late_done (x : inst) : bool := negb (Nat.eqb (length (i_lw x)) 0) && forallb (fun w => w) (i_lw x).
 Definition run_predict (x : xval) : xval :=
   match x with
   | XL [XN d; XN n; XN k; XN c] =>
-      if (n <=? 8)%N && (d <=? 1)%N && (k <=? 6)%N && (c <=? 8)%N && (1 <=? n)%N then
-        let v := {| fixD := N.eqb d 1 |} in
+      if (n <=? 8)%N && (d <=? 2)%N && (k <=? 6)%N && (c <=? 8)%N && (1 <=? n)%N then
+        let v := d_hvariant d in
         let fuel := 400 * (1 + N.to_nat n) * (1 + N.to_nat c) in
-        let '(s, ok) := scenario v fuel (N.to_nat k) (N.to_nat n) (N.to_nat c) 0 (hinit (N.to_nat n)) true in
+        let '(s0, ok) := scenario v fuel (N.to_nat k) (N.to_nat n) (N.to_nat c) 0 (hinit (N.to_nat n)) true in
+        let s := late_wait v fuel s0 in
         XL [x_bool ok; XL (map (fun x => x_bool (waiter_done x)) (removelast (insts s))); x_nat (who_serves s);
-            x_bool (hquiescentb v s); XL (map (fun x => x_bool (forallb c_over (cs (i_sd x)))) (insts s))]
+            x_bool (hquiescentb v s); XL (map (fun x => x_bool (forallb c_over (cs (i_sd x)))) (insts s));
+            XL (map (fun x => x_bool (late_done x)) (removelast (insts s)))]
       else bad_input
   | _ => bad_input
   end.
 
-(** the harness' scenario (L ports handovers runtime seed jitter d_bind d_send d_close slow_ms nslow gap_ms eager):
-    the prediction depends only on the number of ports, of handovers and of slow requests in flight *)
+(** the harness' scenario (L ports handovers runtime seed jitter (L delay ...) slow_ms nslow gap_ms eager keep-alive both-families
+    stale-file block_ms): the prediction depends only on the number of listening sockets (two per port with both address
+    families), of handovers and of slow requests in flight *)
 Definition run_run (x : xval) : xval :=
   match x with
-  | XL [XN n; XN k; XN _; XN _; XN _; XN _; XN _; XN _; XN _; XN c; XN _; XN _] => run_predict (XL [XN 1; XN n; XN k; XN c])
+  | XL [XN n; XN k; XN _; XN _; XN _; XL _; XN _; XN c; XN _; XN _; XN _; XN dual; XN _; XN _] =>
+      run_predict (XL [XN 2; XN (if N.eqb dual 0 then n else 2 * n); XN k; XN c])
   | _ => bad_input
   end.
 
